@@ -255,7 +255,7 @@ class MainResult:
 
 
 def run_main(argv, data, chunks, script=('quit',), on_read=None, interrupt_at=None, stdin_errors='strict',
-             rec=None, run_shim=None, capture=False, tracker=None):
+             rec=None, run_shim=None, capture=False, tracker=None, open_error=None):
     """Start the tool the way __main__ does: parse_args -> set_color_output -> Output -> main.main.
     Mode is taken from argv (-l FILE: file; -p: pipe; -r ...: run, needs run_shim)."""
     t = tool()
@@ -277,6 +277,10 @@ def run_main(argv, data, chunks, script=('quit',), on_read=None, interrupt_at=No
 
     def sim_open(path, *a, **kw):
         rec.add('open', path)
+        if open_error is not None:
+            # I/O fault: the file can not be opened (it does not exist)
+            rec.add('fault-open', open_error)
+            raise {'FileNotFoundError': FileNotFoundError}[open_error](2, 'No such file or directory', path)
         mode = a[0] if a else kw.get('mode', 'r')
         if 'b' in mode:
             return io.BufferedReader(raw, 8192)
